@@ -5,24 +5,28 @@
 
     The four facts about the code that the proof needs (they are the proposed fixes;
     each is a generated constant, so with a fix missing the corresponding lemma fails):
-    [fix_pending], [fix_route], [fix_free_ssl], [fix_pinned]. *)
+    [fix_purge], [fix_route], [fix_free_ssl], [fix_pinned]. *)
 From Qv Require Import Common.Bytes Gen.GenNetio Gen.GenStarttls Model.NetRead Spec.LineSpec
   Proofs.NetReadProofs Model.TlsSwitch Spec.TlsSwitchSpec Proofs.TlsSwitchRead.
 Local Open Scope bool_scope.
 
-Lemma fix_pending : ST_CHECKS_PENDING = true.   (* tls_init() refuses clear text behind the STARTTLS reply *)
+Lemma fix_purge : ST_PURGES = true.   (* lib/netio.c drops input that was buffered under another TLS state *)
 Proof. reflexivity. Qed.
 Lemma fix_route : ST_QUITMSG_RESETS_ROUTE = false.   (* quitmsg() keeps expect_tls and the client certificate of the route *)
 Proof. reflexivity. Qed.
 Lemma fix_free_ssl : ST_QIN_FREES_SSL = true.   (* quitmsg_if_net() drops the TLS session together with the socket *)
 Proof. reflexivity. Qed.
-Lemma fix_pinned : ST_PINNED_NEEDS_TLS = true.   (* a tlshosts file demands STARTTLS *)
+Lemma fix_pinned : ST_PINNED_NEEDS_TLS = true.   (* main() refuses a host with a tlshosts file outside TLS *)
 Proof. reflexivity. Qed.
 
 Section Sim.
 Variable tf : conn -> list (N * Z).
 
 (* ------------------------------------------------------------------ the relation *)
+(** the part of lineinn that the next read will look at *)
+Definition einn (s : st) : bytes := if Bool.eqb (s_innssl s) (s_ssl s) then s_inn s else [].
+Definition synced (s : st) : Prop := s_innssl s = s_ssl s.
+
 Definition Inv (k : tcase) (s : st) (c : cst) : Prop :=
   s_xtls s = k_route k /\ s_rcert s = k_route k /\
   length (s_inn s) <= LINEINBUF - 1 /\
@@ -30,8 +34,8 @@ Definition Inv (k : tcase) (s : st) (c : cst) : Prop :=
      match x_ph c with
      | PNone => False
      | PClear | PFailed => s_ssl s = false /\ rest (s_tls s) = tls_stream (conn_of k (x_k c))
-     | PTls prev => s_ssl s = true /\ prev = avail s /\
-                    exists used, tls_stream (conn_of k (x_k c)) = used ++ s_inn s ++ rest (s_tls s)
+     | PTls prev => s_ssl s = true /\ prev = length (einn s) + length (rest (s_tls s)) /\
+                    exists used, tls_stream (conn_of k (x_k c)) = used ++ einn s ++ rest (s_tls s)
      end
    else s_ssl s = false).
 
@@ -124,17 +128,29 @@ Proof. intros ->. rewrite skipn_app, Nat.sub_diag, skipn_all. reflexivity. Qed.
 
 Definition read_post (c : cst) (s : st) (it : ritem) (s' : st) (c' : cst) : Prop :=
   keeps c c' /\ s_sock s' = true /\ s_linein s' = s_linein s /\
-  (forall l, it = RLine l -> kind (x_ph c) = 3 -> subN (line_ext l) (x_acc c')).
+  (forall l, it = RLine l -> kind (x_ph c) = 3 -> subN (line_ext l) (x_acc c')) /\ synced s'.
 
 Lemma upd_net_tr s i e : s_tr (upd_net s i e) = s_tr s.
 Proof. unfold upd_net. destruct (s_ssl s); reflexivity. Qed.
 
-Lemma nread_ok k s c :
-  Rel k s c -> s_sock s = true -> ok_res k (read_post c s) (nread s).
+(** net_read() behind drop_stale_input() *)
+Definition nread_core (s : st) : res ritem :=
+  let '(it, r) := net_read2 {| inn := s_inn s; en := chan s |} in
+  let s1 := upd_net s (inn r) (en r) in
+  match it with
+  | RDie => Exit (die s1)
+  | RStuck => Stuck s1
+  | _ => Ret it (log (EvR (s_ssl s) it (length (inn r) + length (rest (en r)))) s1)
+  end.
+
+Lemma nread_core_ok k s c :
+  Rel k s c -> s_sock s = true -> synced s -> ok_res k (read_post c s) (nread_core s).
 Proof.
-  intros Hr Hsock. pose proof LB as HLB.
+  intros Hr Hsock Hsyn. pose proof LB as HLB.
   destruct Hr as [Ht (Hx & Hrc & Hlen & Hp)]. rewrite Hsock in Hp.
-  unfold nread.
+  assert (He : einn s = s_inn s) by (unfold einn; rewrite Hsyn, Bool.eqb_reflx; reflexivity).
+  rewrite He in Hp.
+  unfold nread_core.
   destruct (net_read2 {| inn := s_inn s; en := chan s |}) as [it r] eqn:En.
   destruct (net_read2_spec {| inn := s_inn s; en := chan s |} it r Hlen En) as (Hit & Hlen').
   unfold total in Hit. cbn [inn en] in Hit.
@@ -153,7 +169,8 @@ Proof.
       - unfold read_post. repeat split; try apply subN_refl.
         + unfold upd_net. rewrite Hssl. cbn. exact Hsock.
         + unfold upd_net. rewrite Hssl. reflexivity.
-        + intros l _ Hk. rewrite Eph in Hk. discriminate. }
+        + intros l _ Hk. rewrite Eph in Hk. discriminate.
+        + unfold synced, upd_net. rewrite Hssl. cbn. rewrite <- Hssl. exact Hsyn. }
     destruct it; try apply Hgo; [exact Hdie|exact Hstuck].
   - (* after a failed handshake *)
     destruct Hp as [Hssl Htls].
@@ -166,12 +183,13 @@ Proof.
       - unfold read_post. repeat split; try apply subN_refl.
         + unfold upd_net. rewrite Hssl. cbn. exact Hsock.
         + unfold upd_net. rewrite Hssl. reflexivity.
-        + intros l _ Hk. rewrite Eph in Hk. discriminate. }
+        + intros l _ Hk. rewrite Eph in Hk. discriminate.
+        + unfold synced, upd_net. rewrite Hssl. cbn. rewrite <- Hssl. exact Hsyn. }
     destruct it; try apply Hgo; [exact Hdie|exact Hstuck].
   - (* inside TLS *)
     destruct Hp as (Hssl & Hprev & used & Hused).
     unfold chan in *. rewrite Hssl in *.
-    unfold avail, chan in Hprev. rewrite Hssl in Hprev.
+    assert (Hin : s_innssl s = true) by (rewrite Hsyn; exact Hssl).
     set (T := tls_stream (conn_of k (x_k c))) in *.
     set (lft := length (inn r) + length (rest (en r))).
     (* what a step that consumes [j] looks like *)
@@ -184,12 +202,13 @@ Proof.
     { intros it0 j acc' Hj Hstep Hacc Hext. exists (mkC (x_k c) (PTls lft) (x_vfy c) acc').
       split.
       - apply (Rel_log k _ c _ _ Ht' Hstep).
-        unfold Inv, upd_net. rewrite Hssl. cbn. rewrite Hsock. repeat split; try assumption.
+        unfold Inv, einn, upd_net. rewrite Hssl. cbn. rewrite Hin, Hsock. cbn. repeat split; try assumption.
         exists (used ++ j). fold T. rewrite Hused, Hj. now rewrite <- app_assoc.
       - unfold read_post, keeps. cbn [x_k x_vfy x_ph x_acc kind]. rewrite Eph. repeat split; try assumption.
         + unfold upd_net. rewrite Hssl. cbn. exact Hsock.
         + unfold upd_net. rewrite Hssl. reflexivity.
-        + intros l Hl _. now apply Hext. }
+        + intros l Hl _. now apply Hext.
+        + unfold synced, upd_net. rewrite Hssl. cbn. exact Hin. }
     assert (HlenT : length T = length used + prev).
     { rewrite Hused, Hprev. rewrite !app_length. lia. }
     destruct it as [l| | | | |]; cbn [erase item_ok] in Hit; unfold total in Hit; cbn [inn en] in Hit.
@@ -230,13 +249,38 @@ Proof.
     + exact Hstuck.
 Qed.
 
+Lemma Rel_purge k s c :
+  Rel k s c -> Rel k (purge s) c /\ synced (purge s).
+Proof.
+  intros Hr. unfold purge. rewrite fix_purge. cbn [andb].
+  destruct (Bool.eqb (s_innssl s) (s_ssl s)) eqn:E; cbn [negb].
+  - split; [exact Hr|]. now apply Bool.eqb_prop.
+  - split; [|reflexivity].
+    destruct Hr as [Ht (Hx & Hrc & Hlen & Hp)]. split; [exact Ht|].
+    unfold Inv, einn in *. cbn. rewrite E in Hp. rewrite Bool.eqb_reflx.
+    repeat split; try assumption. lia.
+Qed.
+
+Lemma nread_ok k s c :
+  Rel k s c -> s_sock s = true -> ok_res k (read_post c s) (nread s).
+Proof.
+  intros Hr Hsock. destruct (Rel_purge k s c Hr) as (Hr' & Hsyn).
+  assert (Hs' : s_sock (purge s) = true).
+  { unfold purge. destruct (ST_PURGES && negb (Bool.eqb (s_innssl s) (s_ssl s))); exact Hsock. }
+  assert (Hl' : s_linein (purge s) = s_linein s).
+  { unfold purge. destruct (ST_PURGES && negb (Bool.eqb (s_innssl s) (s_ssl s))); reflexivity. }
+  change (nread s) with (nread_core (purge s)).
+  eapply ok_weaken; [apply (nread_core_ok k (purge s) c Hr' Hs' Hsyn)|].
+  intros it s' c' _ (H1 & H2 & H3 & H4). split; [exact H1|]. split; [exact H2|]. split; [congruence|exact H4].
+Qed.
+
 (* ------------------------------------------------------------------ netget(0) *)
 Lemma Rel_set_linein k s c l : Rel k s c -> Rel k (set_linein l s) c.
 Proof. intros H. exact H. Qed.
 
 Definition get_post (c : cst) (v : Z) (s' : st) (c' : cst) : Prop :=
   keeps c c' /\ s_sock s' = true /\
-  ((0 <? v)%Z = true -> kind (x_ph c) = 3 -> subN (line_ext (s_linein s')) (x_acc c')).
+  ((0 <? v)%Z = true -> kind (x_ph c) = 3 -> subN (line_ext (s_linein s')) (x_acc c')) /\ synced s'.
 
 Lemma neg_not_pos e : (0 <? neg e)%Z = false.
 Proof. unfold neg. apply Z.ltb_ge. lia. Qed.
@@ -246,48 +290,48 @@ Lemma netget0_ok k s c :
 Proof.
   intros Hr Hsock. unfold netget0.
   eapply ok_bind; [apply nread_ok; eassumption|].
-  intros it s1 c1 Hr1 (Hk & Hs1 & _ & Hext).
-  assert (Herr : forall e s2, Rel k s2 c1 -> s_sock s2 = true -> ok_res k (get_post c) (Ret (neg e) s2)).
-  { intros e s2 Hr2 Hs2. exists c1. split; [exact Hr2|]. split; [exact Hk|]. split; [exact Hs2|].
-    intros H. rewrite neg_not_pos in H. discriminate. }
+  intros it s1 c1 Hr1 (Hk & Hs1 & _ & Hext & Hsyn).
+  assert (Herr : forall e s2, Rel k s2 c1 -> s_sock s2 = true -> synced s2 -> ok_res k (get_post c) (Ret (neg e) s2)).
+  { intros e s2 Hr2 Hs2 Hy2. exists c1. split; [exact Hr2|]. split; [exact Hk|]. split; [exact Hs2|].
+    split; [|exact Hy2]. intros H. rewrite neg_not_pos in H. discriminate. }
   destruct it as [l| | | | |]; try (apply Herr; assumption).
   destruct (netget_code l) as [code|].
   - exists c1. split; [apply Rel_set_linein; exact Hr1|].
-    split; [exact Hk|]. split; [exact Hs1|].
+    split; [exact Hk|]. split; [exact Hs1|]. split; [|exact Hsyn].
     intros _ Hk3. cbn [set_linein s_linein]. now apply (Hext l).
-  - apply Herr; [apply Rel_set_linein; exact Hr1|exact Hs1].
+  - apply Herr; [apply Rel_set_linein; exact Hr1|exact Hs1|exact Hsyn].
 Qed.
 
 (* ------------------------------------------------------------------ greeting() *)
-Definition loop_post (c : cst) (s' : st) (c' : cst) : Prop := keeps c c' /\ s_sock s' = true.
+Definition loop_post (c : cst) (s' : st) (c' : cst) : Prop := keeps c c' /\ s_sock s' = true /\ synced s'.
 
 Lemma ehlo_loop_ok k fuel : forall sc ret err s c,
-  Rel k s c -> s_sock s = true -> (kind (x_ph c) = 3 -> subN ret (x_acc c)) ->
+  Rel k s c -> s_sock s = true -> synced s -> (kind (x_ph c) = 3 -> subN ret (x_acc c)) ->
   ok_res k (fun r s' c' => loop_post c s' c' /\
              match r with inl t => (t <? 0)%Z = true | inr (ret', _) => kind (x_ph c) = 3 -> subN ret' (x_acc c') end)
          (ehlo_loop fuel sc ret err s).
 Proof.
-  induction fuel as [|fuel IH]; intros sc ret err s c Hr Hsock Hret; cbn [ehlo_loop].
+  induction fuel as [|fuel IH]; intros sc ret err s c Hr Hsock Hsyn Hret; cbn [ehlo_loop].
   { destruct (dash3 s); [exact (Rel_Tr _ _ _ Hr)|].
-    exists c. split; [exact Hr|]. split; [split; [apply keeps_refl|exact Hsock]|exact Hret]. }
+    exists c. split; [exact Hr|]. split; [split; [apply keeps_refl|split; assumption]|exact Hret]. }
   destruct (dash3 s).
-  2:{ exists c. split; [exact Hr|]. split; [split; [apply keeps_refl|exact Hsock]|exact Hret]. }
+  2:{ exists c. split; [exact Hr|]. split; [split; [apply keeps_refl|split; assumption]|exact Hret]. }
   eapply ok_bind; [apply netget0_ok; eassumption|].
-  intros t s1 c1 Hr1 (Hk1 & Hs1 & Hext).
+  intros t s1 c1 Hr1 (Hk1 & Hs1 & Hext & Hy1).
   assert (Hk13 : kind (x_ph c1) = kind (x_ph c)) by apply Hk1.
   assert (Hrec : forall ret' err', (kind (x_ph c) = 3 -> subN ret' (x_acc c1)) ->
             ok_res k (fun r s' c' => loop_post c s' c' /\
                match r with inl t => (t <? 0)%Z = true | inr (ret'', _) => kind (x_ph c) = 3 -> subN ret'' (x_acc c') end)
               (ehlo_loop fuel sc ret' err' s1)).
-  { intros ret' err' Hret'. eapply ok_weaken; [apply (IH sc ret' err' s1 c1 Hr1 Hs1)|].
+  { intros ret' err' Hret'. eapply ok_weaken; [apply (IH sc ret' err' s1 c1 Hr1 Hs1 Hy1)|].
     - intros H3. apply Hret'. congruence.
-    - intros r s' c' _ ((Hk' & Hs') & Hm). split; [split; [eapply keeps_trans; eassumption|exact Hs']|].
+    - intros r s' c' _ ((Hk' & Hs' & Hy') & Hm). split; [split; [eapply keeps_trans; eassumption|split; assumption]|].
       destruct r as [|[ret'' ?]]; [exact Hm|]. intros H3. apply Hm. congruence. }
   assert (Hold : kind (x_ph c) = 3 -> subN ret (x_acc c1)).
   { intros H3. eapply subN_trans; [apply Hret; exact H3|apply Hk1]. }
   destruct (negb (Z.eqb sc t)) eqn:Ene.
   - destruct (t <? 0)%Z eqn:Et.
-    + exists c1. split; [exact Hr1|]. split; [split; assumption|exact Et].
+    + exists c1. split; [exact Hr1|]. split; [split; [assumption|split; assumption]|exact Et].
     + apply Hrec. exact Hold.
   - apply negb_false_iff, Z.eqb_eq in Ene. subst t.
     destruct (Z.eqb sc ST_EHLO_OK && negb err) eqn:E2; [|apply Hrec; exact Hold].
@@ -299,21 +343,21 @@ Proof.
 Qed.
 
 Lemma helo_loop_ok k fuel : forall sc err s c,
-  Rel k s c -> s_sock s = true ->
+  Rel k s c -> s_sock s = true -> synced s ->
   ok_res k (fun r s' c' => loop_post c s' c' /\ match r with inl t => (t <? 0)%Z = true | inr _ => True end)
          (helo_loop fuel sc err s).
 Proof.
-  induction fuel as [|fuel IH]; intros sc err s c Hr Hsock; cbn [helo_loop].
+  induction fuel as [|fuel IH]; intros sc err s c Hr Hsock Hsyn; cbn [helo_loop].
   { destruct (dash3 s); [exact (Rel_Tr _ _ _ Hr)|].
-    exists c. split; [exact Hr|]. split; [split; [apply keeps_refl|exact Hsock]|exact I]. }
+    exists c. split; [exact Hr|]. split; [split; [apply keeps_refl|split; assumption]|exact I]. }
   destruct (dash3 s).
-  2:{ exists c. split; [exact Hr|]. split; [split; [apply keeps_refl|exact Hsock]|exact I]. }
+  2:{ exists c. split; [exact Hr|]. split; [split; [apply keeps_refl|split; assumption]|exact I]. }
   eapply ok_bind; [apply netget0_ok; eassumption|].
-  intros t s1 c1 Hr1 (Hk1 & Hs1 & _).
+  intros t s1 c1 Hr1 (Hk1 & Hs1 & _ & Hy1).
   destruct (t <? 0)%Z eqn:Et.
-  - exists c1. split; [exact Hr1|]. split; [split; assumption|exact Et].
-  - eapply ok_weaken; [apply (IH sc _ s1 c1 Hr1 Hs1)|].
-    intros r s' c' _ ((Hk' & Hs') & Hm). split; [split; [eapply keeps_trans; eassumption|exact Hs']|exact Hm].
+  - exists c1. split; [exact Hr1|]. split; [split; [assumption|split; assumption]|exact Et].
+  - eapply ok_weaken; [apply (IH sc _ s1 c1 Hr1 Hs1 Hy1)|].
+    intros r s' c' _ ((Hk' & Hs' & Hy') & Hm). split; [split; [eapply keeps_trans; eassumption|split; assumption]|exact Hm].
 Qed.
 
 Definition can_write (c : cst) : Prop := kind (x_ph c) = 1 \/ kind (x_ph c) = 3.
@@ -340,31 +384,34 @@ Proof.
   { intros v s' c' Hv Hr' Hp. exists c'. split; [exact Hr'|]. split; [exact Hp|].
     intros H. apply Z.leb_le in H. apply Z.ltb_lt in Hv. lia. }
   eapply ok_bind; [apply netget0_ok; [exact Hr0|exact Hsock]|].
-  intros sc s1 c1 Hr1 (Hk1 & Hs1 & _).
-  destruct (sc <? 0)%Z eqn:Esc; [apply (Hnegv _ _ c1); [exact Esc|exact Hr1|split; assumption]|].
-  eapply ok_bind; [apply (ehlo_loop_ok k _ sc 0%N false s1 c1 Hr1 Hs1); intros _; apply subN_0|].
-  intros r s2 c2 Hr2 ((Hk2 & Hs2) & Hm).
+  intros sc s1 c1 Hr1 (Hk1 & Hs1 & _ & Hy1).
+  destruct (sc <? 0)%Z eqn:Esc; [apply (Hnegv _ _ c1); [exact Esc|exact Hr1|split; [assumption|split; assumption]]|].
+  eapply ok_bind; [apply (ehlo_loop_ok k _ sc 0%N false s1 c1 Hr1 Hs1 Hy1); intros _; apply subN_0|].
+  intros r s2 c2 Hr2 ((Hk2 & Hs2 & Hy2) & Hm).
   assert (Hk02 : keeps c c2) by (eapply keeps_trans; eassumption).
+  assert (Hp2 : loop_post c s2 c2) by (split; [assumption|split; assumption]).
   destruct r as [t|[ret err]].
-  { apply (Hnegv _ _ c2); [exact Hm|exact Hr2|split; assumption]. }
-  destruct err; [apply (Hneg _ _ c2 Hr2); split; assumption|].
+  { apply (Hnegv _ _ c2); [exact Hm|exact Hr2|exact Hp2]. }
+  destruct err; [apply (Hneg _ _ c2 Hr2); exact Hp2|].
   destruct (Z.eqb sc ST_EHLO_OK).
-  { exists c2. split; [exact Hr2|]. split; [split; assumption|].
+  { exists c2. split; [exact Hr2|]. split; [exact Hp2|].
     intros _ H3. rewrite N2Z.id. apply Hm. destruct Hk1 as (_ & _ & Hkk & _). congruence. }
   assert (Hr3 : Rel k (nwrite (helo_cmd ST_CMD_HELO) s2) c2).
   { apply nwrite_ok; [exact Hr2|exact Hs2|]. apply can_write_not_failed. eapply keeps_can_write; eassumption. }
   eapply ok_bind; [apply netget0_ok; [exact Hr3|exact Hs2]|].
-  intros sh s4 c4 Hr4 (Hk4 & Hs4 & _).
+  intros sh s4 c4 Hr4 (Hk4 & Hs4 & _ & Hy4).
   assert (Hk04 : keeps c c4) by (eapply keeps_trans; eassumption).
-  destruct (sh <? 0)%Z eqn:Esh; [apply (Hnegv _ _ c4); [exact Esh|exact Hr4|split; assumption]|].
-  eapply ok_bind; [apply (helo_loop_ok k _ sh false s4 c4 Hr4 Hs4)|].
-  intros r2 s5 c5 Hr5 ((Hk5 & Hs5) & Hm5).
+  assert (Hp4 : loop_post c s4 c4) by (split; [assumption|split; assumption]).
+  destruct (sh <? 0)%Z eqn:Esh; [apply (Hnegv _ _ c4); [exact Esh|exact Hr4|exact Hp4]|].
+  eapply ok_bind; [apply (helo_loop_ok k _ sh false s4 c4 Hr4 Hs4 Hy4)|].
+  intros r2 s5 c5 Hr5 ((Hk5 & Hs5 & Hy5) & Hm5).
   assert (Hk05 : keeps c c5) by (eapply keeps_trans; eassumption).
+  assert (Hp5 : loop_post c s5 c5) by (split; [assumption|split; assumption]).
   destruct r2 as [t|err2].
-  { apply (Hnegv _ _ c5); [exact Hm5|exact Hr5|split; assumption]. }
+  { apply (Hnegv _ _ c5); [exact Hm5|exact Hr5|exact Hp5]. }
   destruct (negb err2 && Z.eqb sh ST_EHLO_OK).
-  { exists c5. split; [exact Hr5|]. split; [split; assumption|]. intros _ _. apply subN_0. }
-  destruct (negb err2 && (ST_HELO_FAIL_LO <=? sh)%Z && (sh <=? ST_HELO_FAIL_HI)%Z); apply (Hneg _ _ c5 Hr5); split; assumption.
+  { exists c5. split; [exact Hr5|]. split; [exact Hp5|]. intros _ _. apply subN_0. }
+  destruct (negb err2 && (ST_HELO_FAIL_LO <=? sh)%Z && (sh <=? ST_HELO_FAIL_HI)%Z); apply (Hneg _ _ c5 Hr5); exact Hp5.
 Qed.
 
 (* ------------------------------------------------------------------ quitmsg, shutdown *)
@@ -436,46 +483,22 @@ Proof.
   intros H. eapply ok_bind; [exact H|]. intros u s' c' Hr' Hp. exists c'. split; [exact Hr'|exact Hp].
 Qed.
 
-(* ------------------------------------------------------------------ data_pending *)
-Lemma data_pending_ok k early s c :
-  Rel k s c -> s_sock s = true -> x_ph c = PClear ->
-  Rel k (snd (data_pending early s)) c /\ s_sock (snd (data_pending early s)) = true /\
-  (fst (data_pending early s) = 0%Z -> s_inn (snd (data_pending early s)) = []).
-Proof.
-  intros Hr Hsock Hph. pose proof LB as HLB. unfold data_pending.
-  destruct (s_inn s) as [|x i] eqn:Ei.
-  2:{ cbn [fst snd]. split; [exact Hr|]. split; [exact Hsock|discriminate]. }
-  destruct Hr as [Ht (Hx & Hrc & Hlen & Hp)]. rewrite Hsock, Hph in Hp. destruct Hp as [Hssl Htls].
-  assert (Hset : forall b e, Rel k (set_clr [b] e s) c).
-  { intros b e. split; [exact Ht|]. unfold Inv. cbn. rewrite Hsock, Hph. repeat split; try assumption. lia. }
-  assert (Hsame : Rel k s c).
-  { split; [exact Ht|]. unfold Inv. rewrite Hsock, Hph. repeat split; try assumption. }
-  destruct (cur (s_clr s)) as [|b c'].
-  - destruct early.
-    + destruct (next_segment (future (s_clr s))) as [[[|b c'] f]|]; cbn [fst snd].
-      * split; [exact Hsame|]. split; [exact Hsock|discriminate].
-      * split; [apply Hset|]. split; [exact Hsock|discriminate].
-      * split; [exact Hsame|]. split; [exact Hsock|discriminate].
-    + cbn [fst snd]. split; [exact Hsame|]. split; [exact Hsock|]. intros _. exact Ei.
-  - cbn [fst snd]. split; [apply Hset|]. split; [exact Hsock|discriminate].
-Qed.
-
 (* ------------------------------------------------------------------ tls_init *)
 Lemma tls_reply_loop_ok k fuel : forall i s c,
-  Rel k s c -> s_sock s = true ->
+  Rel k s c -> s_sock s = true -> synced s ->
   ok_res k (fun _ s' c' => loop_post c s' c') (tls_reply_loop fuel i s).
 Proof.
-  induction fuel as [|fuel IH]; intros i s c Hr Hsock; cbn [tls_reply_loop].
+  induction fuel as [|fuel IH]; intros i s c Hr Hsock Hsyn; cbn [tls_reply_loop].
   { destruct ((0 <? i)%Z && dash3 s); [exact (Rel_Tr _ _ _ Hr)|].
-    exists c. split; [exact Hr|]. split; [apply keeps_refl|exact Hsock]. }
+    exists c. split; [exact Hr|]. split; [apply keeps_refl|split; assumption]. }
   destruct ((0 <? i)%Z && dash3 s).
-  2:{ exists c. split; [exact Hr|]. split; [apply keeps_refl|exact Hsock]. }
+  2:{ exists c. split; [exact Hr|]. split; [apply keeps_refl|split; assumption]. }
   eapply ok_bind; [apply netget0_ok; eassumption|].
-  intros t s1 c1 Hr1 (Hk1 & Hs1 & _).
+  intros t s1 c1 Hr1 (Hk1 & Hs1 & _ & Hy1).
   destruct (negb (Z.eqb i t)).
-  - exists c1. split; [exact Hr1|]. split; assumption.
-  - eapply ok_weaken; [apply (IH i s1 c1 Hr1 Hs1)|].
-    intros r s' c' _ (Hk' & Hs'). split; [eapply keeps_trans; eassumption|exact Hs'].
+  - exists c1. split; [exact Hr1|]. split; [assumption|split; assumption].
+  - eapply ok_weaken; [apply (IH i s1 c1 Hr1 Hs1 Hy1)|].
+    intros r s' c' _ (Hk' & Hs' & Hy'). split; [eapply keeps_trans; eassumption|split; assumption].
 Qed.
 
 (** what is left of tlsa_usable says whether a usable record exists *)
@@ -562,28 +585,23 @@ Proof.
   assert (Hr1 : Rel k (nwrite ST_CMD_STARTTLS s0) c).
   { apply nwrite_ok; [exact Hr0|exact Hs0|]. intros E. rewrite Hph in E. discriminate. }
   eapply ok_bind; [apply (netget0_ok k _ c Hr1 Hs0)|].
-  intros i0 s1 c1 Hr2 (Hk1 & Hs1 & _).
-  eapply ok_bind; [apply (tls_reply_loop_ok k _ i0 s1 c1 Hr2 Hs1)|].
-  intros i s2 c2 Hr3 (Hk2 & Hs2).
+  intros i0 s1 c1 Hr2 (Hk1 & Hs1 & _ & Hy1).
+  eapply ok_bind; [apply (tls_reply_loop_ok k _ i0 s1 c1 Hr2 Hs1 Hy1)|].
+  intros i s3 c2 Hr3 (Hk2 & Hs3 & Hy3).
   assert (Hk02 : keeps c c2) by (eapply keeps_trans; eassumption).
   assert (Hxk : x_k c2 = x_k c) by apply Hk02.
   assert (Hph2 : x_ph c2 = PClear).
   { apply kind1. destruct Hk02 as (_ & _ & Hkk & _). rewrite Hkk, Hph. reflexivity. }
   destruct (negb (Z.eqb i ST_STARTTLS_OK)).
-  { apply (Hfail _ c2); [exact Hr3|exact Hxk|exact Hs2|apply Hnz]. }
-  rewrite fix_pending.
-  destruct (data_pending_ok k (c_early cn) s2 c2 Hr3 Hs2 Hph2) as (Hr4 & Hs3 & Hp0).
-  destruct (data_pending (c_early cn) s2) as [p s3]. cbn [fst snd] in *.
-  destruct (negb (Z.eqb p 0)) eqn:Ep.
-  { apply (Hfail _ c2); [exact Hr4|exact Hxk|exact Hs3|apply Hnz]. }
-  apply negb_false_iff, Z.eqb_eq in Ep. specialize (Hp0 Ep).
-  destruct Hr4 as [Ht4 (Hx4 & Hrc4 & Hlen4 & Hp4)]. rewrite Hs3, Hph2 in Hp4. destruct Hp4 as [Hssl4 Htls4].
+  { apply (Hfail _ c2); [exact Hr3|exact Hxk|exact Hs3|apply Hnz]. }
+  destruct Hr3 as [Ht4 (Hx4 & Hrc4 & Hlen4 & Hp4)]. rewrite Hs3, Hph2 in Hp4. destruct Hp4 as [Hssl4 Htls4].
   rewrite Hxk, Hcn in Htls4.
+  assert (Hin4 : s_innssl s3 = false) by (unfold synced in Hy3; congruence).
   set (T := tls_stream cn) in *.
   set (sb := set_clr (s_inn s3) {| cur := []; future := c_post cn |} s3).
   assert (Hstep : step tf k c2 (EvHs (length (s_inn s3)) (c_hs cn)) =
                   Some (mkC (x_k c2) (if N.eqb (c_hs cn) 0 then PTls (length T) else PFailed) false 0)).
-  { cbn [step]. rewrite Hph2, Hp0. cbn [length Nat.eqb negb]. rewrite Hxk, Hcn. reflexivity. }
+  { cbn [step]. rewrite Hph2, Hxk, Hcn. reflexivity. }
   destruct (N.eqb (c_hs cn) 0) eqn:Ehs; cbn [negb].
   2:{ (* the handshake failed *)
     apply (Hfail _ (mkC (x_k c2) PFailed false 0)); [|exact Hxk|exact Hs3|].
@@ -595,9 +613,9 @@ Proof.
   set (s5 := set_conn true (s_sock (log (EvHs (length (s_inn s3)) (c_hs cn)) sb)) (log (EvHs (length (s_inn s3)) (c_hs cn)) sb)).
   set (c5 := mkC (x_k c2) (PTls (length T)) false 0).
   assert (HI5 : forall v, Inv k s5 (mkC (x_k c2) (PTls (length T)) v 0)).
-  { intros v. unfold Inv, s5, sb. cbn. rewrite Hs3. repeat split; try assumption.
-    - unfold avail, chan. cbn. rewrite Hp0, Htls4. reflexivity.
-    - exists []. rewrite Hxk, Hcn, Hp0. cbn. fold T. symmetry. exact Htls4. }
+  { intros v. unfold Inv, einn, s5, sb. cbn. rewrite Hs3, Hin4. cbn. repeat split; try assumption.
+    - rewrite Htls4. reflexivity.
+    - exists []. rewrite Hxk, Hcn. cbn. fold T. symmetry. exact Htls4. }
   assert (Hr5 : Rel k s5 c5).
   { apply (Rel_log_gen k sb s5 c2 _ c5 eq_refl Ht4 Hstep). apply HI5. }
   assert (Hs5 : s_sock s5 = true) by exact Hs3.
@@ -616,35 +634,43 @@ Qed.
 
 (* ------------------------------------------------------------------ connect_mx *)
 Lemma banner_loop_ok k fuel : forall sc fe s c,
-  Rel k s c -> s_sock s = true ->
+  Rel k s c -> s_sock s = true -> synced s ->
   ok_res k (fun _ s' c' => loop_post c s' c') (banner_loop fuel sc fe s).
 Proof.
-  induction fuel as [|fuel IH]; intros sc fe s c Hr Hsock; cbn [banner_loop].
+  induction fuel as [|fuel IH]; intros sc fe s c Hr Hsock Hsyn; cbn [banner_loop].
   { destruct (dash3 s); [exact (Rel_Tr _ _ _ Hr)|].
-    exists c. split; [exact Hr|]. split; [apply keeps_refl|exact Hsock]. }
+    exists c. split; [exact Hr|]. split; [apply keeps_refl|split; assumption]. }
   destruct (dash3 s).
-  2:{ exists c. split; [exact Hr|]. split; [apply keeps_refl|exact Hsock]. }
+  2:{ exists c. split; [exact Hr|]. split; [apply keeps_refl|split; assumption]. }
   eapply ok_bind; [apply netget0_ok; eassumption|].
-  intros t s1 c1 Hr1 (Hk1 & Hs1 & _).
+  intros t s1 c1 Hr1 (Hk1 & Hs1 & _ & Hy1).
   destruct (Z.eqb t (neg ST_ECONNRESET)).
-  - exists c1. split; [exact Hr1|]. split; assumption.
+  - exists c1. split; [exact Hr1|]. split; [assumption|split; assumption].
   - destruct (0 <? t)%Z.
-    + eapply ok_weaken; [apply (IH sc _ s1 c1 Hr1 Hs1)|].
-      intros r s' c' _ (Hk' & Hs'). split; [eapply keeps_trans; eassumption|exact Hs'].
-    + exists c1. split; [exact Hr1|]. split; assumption.
+    + eapply ok_weaken; [apply (IH sc _ s1 c1 Hr1 Hs1 Hy1)|].
+      intros r s' c' _ (Hk' & Hs' & Hy'). split; [eapply keeps_trans; eassumption|split; assumption].
+    + exists c1. split; [exact Hr1|]. split; [assumption|split; assumption].
 Qed.
 
-Definition iter_post (ok : bool) (s' : st) (c' : cst) : Prop :=
-  if ok then s_sock s' = true /\ can_write c' else s_sock s' = false.
+(** what connect_mx() hands to main(): nothing (socket closed), or a connection on which the
+    transmission may start as far as connect_mx() is concerned *)
+Definition mail_ready (k : tcase) (cn : conn) (g : Z) (s' : st) (c' : cst) : Prop :=
+  s_sock s' = true /\ conn_of k (x_k c') = cn /\
+  match x_ph c' with
+  | PTls _ => s_ssl s' = true /\ (need_verify tf cn = true -> x_vfy c' = true) /\ subN (Z.to_N g) (x_acc c')
+  | PClear => s_ssl s' = false /\ k_route k = false /\ existsb usable_rec (tf cn) = false
+  | _ => False
+  end.
 
-Lemma own_tlsa_nil_no_verify cn : pinned cn = false -> length (tf cn) = 0 -> need_verify tf cn = false.
-Proof.
-  intros Hp Hl. unfold need_verify. rewrite Hp. destruct (tf cn); [reflexivity|discriminate].
-Qed.
+Definition iter_post (k : tcase) (cn : conn) (r : option Z) (s' : st) (c' : cst) : Prop :=
+  match r with
+  | Some g => mail_ready k cn g s' c'
+  | None => s_sock s' = false
+  end.
 
 Lemma conn_iter_ok k i cn s c :
   Rel k s c -> s_sock s = false -> i < length (k_conns k) -> conn_of k i = cn ->
-  ok_res k iter_post (conn_iter i cn (tf cn) s).
+  ok_res k (iter_post k cn) (conn_iter i cn (tf cn) s).
 Proof.
   intros Hr Hsock Hi Hcn. unfold conn_iter.
   set (c0 := mkC i PClear false 0).
@@ -657,10 +683,10 @@ Proof.
     - unfold Inv, open_conn. cbn. repeat split; try assumption.
       rewrite Hcn. unfold rest, tls_stream. reflexivity. }
   assert (Hs0 : s_sock s0 = true) by reflexivity.
-  assert (Hnext : forall m, ok_res k closed_post m -> ok_res k iter_post (rdo (_, s') <- m; Ret false s')).
+  assert (Hnext : forall m, ok_res k closed_post m -> ok_res k (iter_post k cn) (rdo (_, s') <- m; Ret None s')).
   { intros m Hm. eapply ok_bind; [exact Hm|]. intros u s' c' Hr' Hp. exists c'. split; [exact Hr'|exact Hp]. }
   eapply ok_bind; [apply (netget0_ok k s0 c0 Hr0 Hs0)|].
-  intros sc0 s1 c1 Hr1 (Hk1 & Hs1 & _).
+  intros sc0 s1 c1 Hr1 (Hk1 & Hs1 & _ & Hy1).
   assert (Hkind1 : kind (x_ph c1) = 1) by (destruct Hk1 as (_ & _ & Hkk & _); exact Hkk).
   destruct ((sc0 <? 0)%Z && Z.eqb sc0 (neg ST_ECONNRESET)).
   { destruct (connection_died_ok k s1 c1 Hr1 Hs1 Hkind1) as (Hrd & Hsd).
@@ -669,8 +695,8 @@ Proof.
   { apply Hnext. now apply (quitmsg_ok k s1 c1). }
   destruct (sc0 <? 0)%Z.
   { now apply (shutdown_abort_ok k s1 c1). }
-  eapply ok_bind; [apply (banner_loop_ok k _ sc0 false s1 c1 Hr1 Hs1)|].
-  intros [sc flagerr] s2 c2 Hr2 (Hk2 & Hs2).
+  eapply ok_bind; [apply (banner_loop_ok k _ sc0 false s1 c1 Hr1 Hs1 Hy1)|].
+  intros [sc flagerr] s2 c2 Hr2 (Hk2 & Hs2 & _).
   assert (Hk02 : keeps c0 c2) by (eapply keeps_trans; eassumption).
   assert (Hkind2 : kind (x_ph c2) = 1) by (destruct Hk02 as (_ & _ & Hkk & _); exact Hkk).
   destruct (Z.eqb sc (neg ST_ECONNRESET)).
@@ -679,7 +705,7 @@ Proof.
   destruct (negb (Z.eqb sc ST_GREETING_OK) || flagerr).
   { apply Hnext. now apply (quitmsg_if_net_ok k sc s2 c2). }
   eapply ok_bind; [apply (greeting_ok k s2 c2 Hr2 Hs2); left; exact Hkind2|].
-  intros g s3 c3 Hr3 ((Hk3 & Hs3) & _).
+  intros g s3 c3 Hr3 ((Hk3 & Hs3 & _) & _).
   assert (Hk03 : keeps c0 c3) by (eapply keeps_trans; eassumption).
   assert (Hkind3 : kind (x_ph c3) = 1) by (destruct Hk03 as (_ & _ & Hkk & _); exact Hkk).
   assert (Hph3 : x_ph c3 = PClear) by (apply kind1; exact Hkind3).
@@ -697,40 +723,28 @@ Proof.
     { apply Hnext. now apply (quitmsg_if_net_ok k _ s4 c4). }
     apply negb_false_iff, Z.eqb_eq in Er. destruct (Hr0' Er) as (Hkind4 & Hvfy4).
     eapply ok_bind; [apply (greeting_ok k s4 c4 Hr4 Hs4); right; exact Hkind4|].
-    intros g2 s5 c5 Hr5 ((Hk5 & Hs5) & Hext5).
+    intros g2 s5 c5 Hr5 ((Hk5 & Hs5 & _) & Hext5).
     destruct (g2 <? 0)%Z eqn:Eg2.
     { apply Hnext. now apply (quitmsg_if_net_ok k g2 s5 c5). }
     assert (Hg2 : (0 <=? g2)%Z = true) by (apply Z.leb_le; apply Z.ltb_ge in Eg2; exact Eg2).
     specialize (Hext5 Hg2 Hkind4).
     destruct Hk5 as (Hxk5 & Hvfy5 & Hkind5 & _).
-    destruct Hr5 as [Ht5 HI5]. pose proof HI5 as (_ & _ & _ & Hp5). rewrite Hs5 in Hp5.
+    pose proof Hr5 as [_ (_ & _ & _ & Hp5)]. rewrite Hs5 in Hp5.
+    exists c5. split; [exact Hr5|]. cbn [iter_post]. unfold mail_ready.
+    split; [exact Hs5|]. split; [rewrite Hxk5, Hxk4, Hxk3; exact Hcn|].
     destruct (x_ph c5) as [| | |prev] eqn:Eph5; try (rewrite Hkind4 in Hkind5; discriminate).
     destruct Hp5 as (Hssl5 & _).
-    exists c5. split.
-    + apply (Rel_log k s5 c5 _ c5 Ht5); [|exact HI5].
-      cbn [step]. rewrite Eph5, Hssl5. cbn [negb orb].
-      rewrite Hxk5, Hxk4, Hxk3, Hcn.
-      destruct (need_verify tf cn) eqn:Env.
-      * rewrite Hvfy5, (Hvfy4 eq_refl). cbn [negb andb orb].
-        unfold subN in Hext5. rewrite Hext5, N.eqb_refl. reflexivity.
-      * cbn [andb orb]. unfold subN in Hext5. rewrite Hext5, N.eqb_refl. reflexivity.
-    + split; [exact Hs5|]. right. rewrite Eph5. reflexivity.
+    split; [exact Hssl5|]. split; [|exact Hext5]. intros Hn. rewrite Hvfy5. now apply Hvfy4.
   - (* no STARTTLS *)
     destruct (s_xtls s3) eqn:Ext.
     { apply Hnext. now apply (quitmsg_ok k s3 c3). }
     destruct (Nat.ltb 0 (length (tf cn))) eqn:Etl.
     { apply Hnext. now apply (quitmsg_ok k s3 c3). }
-    rewrite fix_pinned. cbn [andb].
-    destruct (pinned cn) eqn:Epin.
-    { apply Hnext. now apply (quitmsg_ok k s3 c3). }
-    destruct Hr3 as [Ht3 HI3]. pose proof HI3 as (Hx3 & _ & _ & Hp3). rewrite Hs3, Hph3 in Hp3.
-    destruct Hp3 as (Hssl3 & _).
-    exists c3. split.
-    + apply (Rel_log k s3 c3 _ c3 Ht3); [|exact HI3].
-      cbn [step]. rewrite Hph3, Hssl3, Hxk3, Hcn, <- Hx3, Ext.
-      rewrite (own_tlsa_nil_no_verify cn Epin); [reflexivity|].
-      apply Nat.ltb_ge in Etl. lia.
-    + split; [exact Hs3|]. left. exact Hkind3.
+    pose proof Hr3 as [_ (Hx3 & _ & _ & Hp3)]. rewrite Hs3, Hph3 in Hp3. destruct Hp3 as (Hssl3 & _).
+    exists c3. split; [exact Hr3|]. cbn [iter_post]. unfold mail_ready. rewrite Hph3.
+    split; [exact Hs3|]. split; [rewrite Hxk3; exact Hcn|].
+    split; [exact Hssl3|]. split; [congruence|].
+    apply Nat.ltb_ge in Etl. destruct (tf cn); [reflexivity|simpl in Etl; lia].
 Qed.
 
 Lemma skipn_cons_nth {A} (l : list A) : forall i x t d,
@@ -743,17 +757,23 @@ Proof.
     + simpl in H. destruct (IH i x t d H) as (H1 & H2 & H3). simpl. repeat split; [exact H1|exact H2|lia].
 Qed.
 
+Definition mx_post (k : tcase) (r : option (conn * Z)) (s' : st) (c' : cst) : Prop :=
+  match r with
+  | Some (cn, g) => mail_ready k cn g s' c'
+  | None => s_sock s' = false
+  end.
+
 Lemma connect_mx_ok k :
   (forall cn, In cn (k_conns k) -> tf cn = tlsa_eff (k_conns k)) ->
   forall todo i s c, todo = skipn i (k_conns k) -> Rel k s c -> s_sock s = false ->
-  ok_res k iter_post (connect_mx (k_conns k) i todo s).
+  ok_res k (mx_post k) (connect_mx (k_conns k) i todo s).
 Proof.
   intros Hown. induction todo as [|cn todo IH]; intros i s c Htodo Hr Hsock; cbn [connect_mx].
   - set (s' := if asks_tlsa (k_conns k) then log (EvTlsa 0) s else s).
     assert (Hr' : Rel k s' c).
     { unfold s'. destruct (asks_tlsa (k_conns k)); [|exact Hr].
       apply (Rel_log k s c _ c (proj1 Hr)); [reflexivity|exact (proj2 Hr)]. }
-    exists c. split; [exact Hr'|]. unfold s'. destruct (asks_tlsa (k_conns k)); exact Hsock.
+    exists c. split; [exact Hr'|]. unfold s'. cbn. destruct (asks_tlsa (k_conns k)); exact Hsock.
   - set (s' := if asks_tlsa (k_conns k) then log (EvTlsa 0) s else s).
     assert (Hr' : Rel k s' c).
     { unfold s'. destruct (asks_tlsa (k_conns k)); [|exact Hr].
@@ -763,7 +783,7 @@ Proof.
     assert (Hin : In cn (k_conns k)) by (rewrite <- Hnth; apply nth_In; exact Hlt).
     rewrite <- (Hown cn Hin).
     eapply ok_bind; [apply (conn_iter_ok k i cn s' c Hr' Hs' Hlt Hnth)|].
-    intros ok s1 c1 Hr1 Hp. destruct ok.
+    intros r s1 c1 Hr1 Hp. destruct r as [g|].
     + exists c1. split; [exact Hr1|exact Hp].
     + apply (IH (S i) s1 c1); [now rewrite Hrest|exact Hr1|exact Hp].
 Qed.
@@ -785,10 +805,24 @@ Proof.
   intros Hc. unfold final. apply (final_Tr k (fun _ _ _ => True)). unfold run.
   eapply ok_bind.
   - apply (connect_mx_ok k Hc (k_conns k) 0 (init_st k) cst0 eq_refl (Rel_init k) eq_refl).
-  - intros ok s c Hr Hp. destruct ok.
-    + destruct Hp as (Hs & Hw). apply (shutdown_clean_ok k _ c).
-      apply nwrite_ok; [exact Hr|exact Hs|now apply can_write_not_failed].
-    + apply (shutdown_abort_ok k _ c). apply Rel_report. exact Hr.
+  - intros r s c Hr Hp. destruct r as [[cn g]|].
+    2:{ apply (shutdown_abort_ok k _ c). apply Rel_report. exact Hr. }
+    cbn [mx_post] in Hp. destruct Hp as (Hs & Hcn & Hph).
+    rewrite fix_pinned. cbn [andb].
+    destruct (negb (s_ssl s) && pinned cn) eqn:Epin.
+    { apply (shutdown_clean_ok k _ c). apply Rel_report. exact Hr. }
+    apply (shutdown_clean_ok k _ c).
+    assert (Hrm : Rel k (log (EvMail (s_ssl s) (Z.to_N g)) s) c).
+    { apply (Rel_log k s c _ c (proj1 Hr)); [|exact (proj2 Hr)].
+      cbn [step]. rewrite Hcn.
+      destruct (x_ph c) as [| | |prev] eqn:Eph; try contradiction.
+      - destruct Hph as (Hssl & Hroute & Hnt). rewrite Hssl in *. cbn [negb andb orb] in *.
+        unfold need_verify. rewrite Epin, Hroute, Hnt. reflexivity.
+      - destruct Hph as (Hssl & Hv & Hsub). rewrite Hssl. cbn [negb orb].
+        unfold subN in Hsub. rewrite Hsub, N.eqb_refl. cbn [negb orb].
+        destruct (need_verify tf cn) eqn:En; [rewrite (Hv eq_refl)|]; reflexivity. }
+    apply nwrite_ok; [exact Hrm|exact Hs|].
+    intros E. cbn in E. destruct (x_ph c); try discriminate; contradiction.
 Qed.
 
 Theorem model_spec_with k :
